@@ -55,6 +55,13 @@ func (r *run) pickCrashPoints(log []simos.Effect, want int, seed uint64) []int {
 		total += w[ci]
 	}
 	chosen := map[int]bool{}
+	// always: the instant right after a snapshot has become visible under its final name (what the block index
+	// and the undo files hold at that very moment is what a restart from this snapshot will find)
+	for i := range log {
+		if log[i].Kind == simos.KRename && filepath.Base(log[i].Path2) == "UTXO.db" && i+1 < len(log) && len(chosen) < want/2 {
+			chosen[i+1] = true
+		}
+	}
 	for n := 0; n < want*4 && len(chosen) < want; n++ {
 		x := rng.Intn(total)
 		for ci, wt := range w {
